@@ -158,30 +158,29 @@ func c07Check(c *c07Ctx, in fmtInput) {
 		return
 	}
 	r.Validated++
-	if m.Text != f1 {
+	// a correspondence failure does not end the case: the property's own oracles below still run (DESIGN 5.3)
+	modelOK := true
+	switch {
+	case m.Text != f1:
+		modelOK = false
 		r.Violate(Violation{Kind: "correspondence", Key: "model-text-differs",
 			Detail: "coq/Format.v format and Program.Format() differ on the exported tree", Input: src, Impl: f1, Model: m.Text})
-		return
-	}
-	if !m.WF {
+	case !m.WF:
+		modelOK = false
 		r.Violate(Violation{Kind: "correspondence", Key: "wf-hypothesis-false-on-parser-output", Detail: "wf_prog false on a parser-produced tree", Input: src})
-		return
-	}
-	if !m.Shape {
+	case !m.Shape:
 		r.Violate(Violation{Kind: "correspondence", Key: "shape-theorem-instance-false",
 			Detail: "shape_lines (format a) = false on a wf tree: C07_format_shape's instance is false?!", Input: src, Model: m.Text})
-		return
 	}
 	prog2, err := safeParse(f1)
 	if err != nil {
 		r.Violate(Violation{Kind: "property", Key: "formatted-text-rejected", Detail: err.Error(), Input: src, Impl: f1})
 		return
 	}
-	if k2 := stmtKinds(prog2); k2 != m.SkelStep {
+	if k2 := stmtKinds(prog2); modelOK && k2 != m.SkelStep {
 		r.Violate(Violation{Kind: "correspondence", Key: "skeleton-step-differs",
 			Detail: "skel_step(kinds(parse src)) is not kinds(parse(Format())): the model of one formatting pass on the statement-kind skeleton is not what a re-parse sees",
 			Input:  src, Impl: k2, Model: m.SkelStep})
-		return
 	}
 
 	// ---- property oracle 1: idempotence ----
@@ -236,7 +235,7 @@ func c07Check(c *c07Ctx, in fmtInput) {
 		r.Violate(Violation{Kind: "property", Key: key,
 			Detail: "Format() output violates: 4k-space indentation, no leading/trailing white space on a line, no two consecutive empty lines, exactly one final newline (" + p + ")",
 			Input:  src, Impl: f1})
-	} else if m.OneNL == false {
+	} else if modelOK && !m.OneNL {
 		r.Violate(Violation{Kind: "correspondence", Key: "ends-one-nl-differs", Detail: "model says not exactly one final newline, Go oracle says fine", Input: src, Impl: f1})
 	}
 	if p := depthProblem(f1, prog2); p != "" {
